@@ -1,4 +1,5 @@
 import Skv.Lemmas.Compact
+import Skv.Lemmas.BeginRace
 /-!
 # C01 — transactions read from a stable snapshot (read side of snapshot isolation)
 
@@ -170,3 +171,28 @@ theorem C01_component_search_newest (s : Nat) (comps : List (List Ver)) (hsd : S
       rcases List.mem_cons.mp hu with rfl | hu
       · exact absurd hus hv
       · exact ih ht' hp.2 u hu hus
+
+
+/-! ## begin against a compaction's capture of the snapshot list -/
+
+/-- **a reader is never missed by a running compaction.**  With the begin that reads the visible sequence
+number and registers the snapshot in one step under the tracker's lock (which the capture takes too), in every
+interleaving of commits, begins and captures: every reader registered after a compaction's capture has a
+sequence number not older than the visible one at that capture — it reads the newest versions the compaction
+keeps; readers registered before it are in the captured list. -/
+theorem C01_begin_atomic_with_capture (ops : List BOp) (ha : ∀ op ∈ ops, atomicOp op = true) :
+    (BR.run {} ops).safe := (binv_run ops {} binv_init ha).safe
+
+/-- non-vacuity: a commit, a capture, a begin, another commit, another begin -/
+example : (BR.run {} [.commit, .capture, .beginAtomic, .commit, .beginAtomic]).lateReaders = [2, 1] := by decide
+
+/-- the repaired defect: the two steps of the old begin around a commit and a capture — the reader (sequence
+number 0) is not in the captured list and is older than the capture (visible 1): the compaction drops the
+version it is about to read (in the real store: `get` returned nothing for a key that had a value at the
+reader's snapshot) -/
+theorem fixed_begin_raced_with_compaction_capture :
+    let s := BR.run {} [.load, .commit, .capture, .register]
+    s.captured = some ([], 1) ∧ s.lateReaders = [0] ∧ ¬ s.safe := by
+  refine ⟨by decide, by decide, ?_⟩
+  intro h
+  simp [BR.safe, BR.run, BR.step, BR.reg] at h
